@@ -291,8 +291,8 @@ Proof. intros. eapply visible_past; eauto. eapply record_mentions; eauto. Qed.
 Definition ISound (c : coll) (m : meta) (i : interest) : Prop :=
   (i = INever -> forall st r, In r (coll_recs c) -> globals_accept c st m && chain_accept st 0 (snd r) m = false) /\
   (i = IAlways -> forall st, globals_accept c st m = true /\ forall r, In r (coll_recs c) -> chain_accept st 0 (snd r) m = true).
-Lemma ISound_register : forall c m, coll_shape c -> ISound c m (fst (c_register (haspsf c) c m None)).
-Proof. intros c m Hs. split; intro E; [apply register_never_sound | apply register_always_sound]; auto. Qed.
+Lemma ISound_register : forall c m, coll_shape c -> F12Free c m -> ISound c m (fst (c_register (haspsf c) c m None)).
+Proof. intros c m Hs HF. split; intro E; [apply register_never_sound | apply register_always_sound]; auto. Qed.
 Lemma ISound_sometimes : forall c m, ISound c m ISometimes.
 Proof. intros. split; discriminate. Qed.
 Definition cache_ok (c : coll) (pool : list meta) (st : state) : Prop :=
@@ -305,17 +305,17 @@ Record Inv (c : coll) (pool : list meta) (st : state) (past : list (N * N)) : Pr
   inv_past : forall n id, In (n, id) past -> id < st_next st
 }.
 
-Lemma get_interest_spec : forall c pool st cs i st1 o1, coll_shape c -> st_pending st = None -> cache_ok c pool st ->
+Lemma get_interest_spec : forall c pool st cs i st1 o1, coll_shape c -> F12Free c (meta_of pool cs) -> st_pending st = None -> cache_ok c pool st ->
   get_interest c pool st cs = (i, st1, o1) ->
   ISound c (meta_of pool cs) i /\ quiet o1 /\
   st_bits st1 = st_bits st /\ st_pending st1 = None /\ st_spans st1 = st_spans st /\ st_stack st1 = st_stack st /\
   st_next st1 = st_next st /\ st_handles st1 = st_handles st /\ cache_ok c pool st1.
 Proof.
-  intros c pool st cs i st1 o1 Hsh Hp Hc H. unfold get_interest in H.
+  intros c pool st cs i st1 o1 Hsh HF Hp Hc H. unfold get_interest in H.
   destruct (assoc cs (st_cache st)) as [i0|] eqn:E.
   - inversion H; subst. split; [apply Hc; auto|]. repeat (split; [solve [auto using quiet_nil]|]). exact Hc.
   - rewrite Hp in H. pose proof (c_register_pending c (meta_of pool cs)) as Pn.
-    pose proof (ISound_register c (meta_of pool cs) Hsh) as Hs.
+    pose proof (ISound_register c (meta_of pool cs) Hsh HF) as Hs.
     destruct (c_register (haspsf c) c (meta_of pool cs) None) as [i0 p0] eqn:Er. simpl in Pn, Hs. subst p0.
     inversion H; subst. simpl. split; [exact Hs|]. split; [apply quiet_cons; auto using quiet_nil|].
     repeat (split; [solve [auto]|]).
